@@ -365,6 +365,8 @@ def judge_tab(t, impl):
         if impl.startswith("ok"):
             return None, "a table outside the property's domain (empty or not strictly increasing) is accepted"
         return True, ""
+    if t.kind == "huge-span":
+        return None, "intervals longer than 1/(100*DBL_MIN): outside the floating-point range where the construction is expected to succeed"
     if not impl.startswith("ok"):
         return False, "construction of the spline fails (%s) on a strictly increasing table" % impl
     d = [unhx(s) for s in impl.split()[1:]]
@@ -465,6 +467,9 @@ def run(ck):
     tables.append(systematic_table([0.0, 1.0, 3.0], [0.0, 1.0, -2.0], [0.5, -1.0, 2.0]))   # arbitrary slopes
     tables.append(systematic_table([0.0, 2.0, 3.0, 7.0, 7.5], [1.0, 1.0, 1.0, 1.0, 1.0]))  # constant data
     tables.append(systematic_table([0.0, 1.0, 2.0, 4.0, 5.0], [1.0, 3.0, 5.0, 9.0, 11.0]))  # affine data
+    # intervals so long that the pivots fall under 100*DBL_MIN : the CubicSplineNullPivot branch
+    tables.append(Table("huge-span", [-8e307, 8e307], [1.0, 2.0]))
+    tables.append(Table("huge-span", [-8e307, 0.0, 8e307], [1.0, 2.0, 0.0]))
     reps = 1 if ck.quick else 8
     nq = 40 if ck.quick else 120
     sizes = list(range(1, 51)) * reps
